@@ -47,8 +47,77 @@ let has_fork_and_join (l : fetch list) : bool =
   let fork = List.exists (fun i -> List.length (List.filter (fun f -> List.mem i (pdeps f)) l) >= 2) idl in
   fork && join
 
+(* ---- path cases: (c08 paths|pathodd (dag (f ID (DEP...) SRC (rp "seg"...) (mp "seg"...))...) (res MODE T T T)...)
+   MODE f = output of the stage addMissingNestedDependencies (flat Sequence in list order) against
+   the model's [add_missing] (corr:C08/stage); w s M m = the engine's option sets against
+   [pipeline] (corr:C08/tree).  Spec on the IMPLEMENTATION's trees, for a plan that is acyclic
+   after completion with unique ids: [members_once_b], [respects_member_deps_b] against the
+   planner's DECLARED dependencies; with non-empty segments [stage_reads_b]: every fetch that the
+   planner left without dependencies is sequenced strictly after every fetch that writes above
+   its response path (c08_pipeline_completes_reads); and -- when the planner-side hypothesis of
+   c08_pipeline_respects_dataflow holds too ([covers_b]) -- [reads_b]: the same for every fetch. *)
+let pfetch_of_sexp = function
+  | L [A "f"; A id; L deps; src; L (A "rp" :: rp); L (A "mp" :: mp)] ->
+    { pf = { fid = nat (int_of_string id); fdeps = nats deps; fmerged = [];
+             fsrc = (match src with
+                     | L [A d; A e] -> Some (nat (int_of_string d), nat (int_of_string e))
+                     | _ -> None) };
+      prp = List.map sbytes rp; pmp = List.map sbytes mp }
+  | x -> raise (Sexp_error ("path fetch expected: " ^ print_sexp x))
+
+let handle_paths (kind : string) (fs : sexp list) (results : sexp list) : (string * string) list =
+  let pl = List.map pfetch_of_sexp fs in
+  let decl = declared pl in
+  let l' = completed pl in
+  let res = ref [] in
+  let add st d = res := (st, d) :: !res in
+  let wellformed = unique_ids_b decl && acyclic_b l' && plain_b decl in
+  if not wellformed then add "error" "generator: path plan is not acyclic after completion with unique ids";
+  let segs = wellformed && segments_ok_b pl in
+  let hyps = segs && covers_b pl in
+  let src i = match List.find_opt (fun f -> int_of_nat f.fid = i) decl with Some f -> f.fsrc | None -> None in
+  List.iter (fun r ->
+    match r with
+    | L [A "res"; A mode; t1; t2; t3] ->
+      let s1 = print_sexp t1 in
+      if print_sexp t2 <> s1 || print_sexp t3 <> s1 then
+        add "specfail" (Printf.sprintf "deterministic mode=%s run1=%s run2=%s run3=%s" mode s1 (print_sexp t2) (print_sexp t3));
+      if mode = "f" then begin
+        let model = show_tree (Sequence (List.map (fun f -> Single f) l')) in
+        if model <> s1 then add "mismatch" (Printf.sprintf "corr:C08/stage impl=%s model=%s" s1 model)
+      end else begin
+        let sched, multi = match mode with
+          | "w" -> false, false
+          | "s" -> true, false
+          | "m" -> true, true
+          | "M" -> false, true
+          | m -> raise (Sexp_error ("mode " ^ m)) in
+        let model = match pipeline sched multi false pl with
+          | Done t -> show_tree t
+          | OutOfFuel -> "(out-of-fuel)" in
+        if model = "(out-of-fuel)" then add "error" ("model out of fuel mode=" ^ mode)
+        else if model <> s1 then add "mismatch" (Printf.sprintf "corr:C08/tree mode=%s impl=%s model=%s" mode s1 model);
+        (match (try Some (tree_of_sexp src t1) with Bad_tree _ -> None) with
+         | None -> add "specfail" (Printf.sprintf "total mode=%s implementation returned %s" mode s1)
+         | Some t ->
+           if wellformed then begin
+             if not (members_once_b t decl) then add "specfail" (Printf.sprintf "members_once mode=%s tree=%s" mode s1);
+             if not (respects_member_deps_b t decl) then add "specfail" (Printf.sprintf "respects_member_deps mode=%s tree=%s" mode s1);
+             if segs && not (stage_reads_b t pl) then add "specfail" (Printf.sprintf "stage_reads_respected mode=%s tree=%s" mode s1)
+             else if hyps && not (reads_b t pl) then add "specfail" (Printf.sprintf "reads_respected mode=%s tree=%s" mode s1)
+           end)
+      end
+    | _ -> add "error" "unrecognised result") results;
+  (* non-trivial: the stage completes a fetch with a NESTED provider and the spec was evaluated *)
+  let nested f = f.prp <> [] in
+  let nt = segs && List.exists (fun f -> eligible f && List.exists (fun g -> nested g && g.pf.fid <> f.pf.fid && writes_above_b g f) pl) pl in
+  ignore kind;
+  if !res = [] then [("ok", (if nt then "nt" else "tr") ^ (if hyps then " covered" else if segs then " stage-only" else if wellformed then " odd-segments" else " malformed"))]
+  else List.rev !res
+
 let handle (x : sexp) : (string * string) list =
   match x with
+  | L (A "c08" :: A (("paths" | "pathodd") as kind) :: L (A "dag" :: fs) :: results) -> handle_paths kind fs results
   | L (A "c08" :: A kind :: L (A "dag" :: fs) :: results) ->
     let l = List.map fetch_of_sexp fs in
     let res = ref [] in
